@@ -50,6 +50,12 @@ class CallsMixin:
             # super(X, self).m(...)
             if isinstance(f.value, ast.Call) and isinstance(f.value.func, ast.Name) and f.value.func.id == 'super':
                 return self.call_super(node, st)
+            root = f
+            while isinstance(root, ast.Attribute):
+                root = root.value
+            if (isinstance(root, ast.Name) and root.id not in st.env and f.attr in self.ct.classes
+                    and self.ct.is_subclass(f.attr, 'BaseException')):
+                return self.construct(node, st, f.attr)      # module.path.SomeError(...)
             if txt in ('json.dumps', 'pprint.pformat', 'platform.python_version'):
                 outs = []
                 for (s, _vals) in self.ev_seq(node.args, st):
@@ -407,7 +413,17 @@ class CallsMixin:
             elif self.known(s, self.is_kind(s, v, Z.K_DICT, Z.K_SET)):
                 outs.append((s.assume(h.size_of(a) >= 0), Z.mk_i(h.size_of(a))))
             else:
-                raise Unsupported("len of value of unknown kind: " + ast.unparse(node), node)
+                # case split on the kind: sized kinds give their length, numbers / None / booleans raise TypeError (as Python does)
+                unsized = z3.Or(Z.is_num(v), Z.is_none(v), Z.is_special(v))
+                seq = self.is_kind(s, v, Z.K_LIST, Z.K_TUPLE)
+                if not self.known(s, z3.Or(unsized, seq)):
+                    raise Unsupported("len of value of unknown kind: " + ast.unparse(node), node)
+                s_bad = s.assume(unsized)
+                if s_bad.feasible():
+                    self.throw_new(s_bad, 'TypeError', 'object has no len()')
+                s_ok = s.assume(seq)
+                if s_ok.feasible():
+                    outs.append((s_ok.assume(h.len_of(a) >= 0), Z.mk_i(h.len_of(a))))
         return outs
 
     def bi_abs(self, node, st):
